@@ -23,6 +23,8 @@ Require Import V.Proofs.StreamLog.
 Require Import V.Proofs.StreamHist.
 Require Import V.Proofs.StreamRefine.
 Require Import V.Proofs.StreamShared.
+Require Import V.Proofs.ExclPublicationProofs.
+Require Import V.Proofs.StreamExcl.
 From Coq Require Import ZifyBool.
 Open Scope Z_scope.
 
@@ -126,6 +128,14 @@ Lemma init_rep_shared :
   sys_rep tlen mtu ses n0 off0 shared pub_inv (sys0_shared init tlen mtu ses str n0 off0) spec0.
 Proof. unfold sys0_shared. apply init_core; [reflexivity|reflexivity|].
   apply handed_over_inv; assumption. Qed.
+
+Lemma init_rep_exclusive :
+  exists s0, sys0_exclusive init tlen mtu ses str n0 off0 = Ok s0 /\
+             sys_rep tlen mtu ses n0 off0 exclusive xinv s0 spec0.
+Proof. destruct (xpub_new_handed_over init tlen mtu ses str n0 off0 Hgeo Hn0 Hoff0) as (x & Hx & Hinv & Hlog & Hpos).
+  unfold sys0_exclusive. rewrite Hx. cbn [bind]. eexists. split; [reflexivity|].
+  apply init_core; [exact Hlog|reflexivity|]. split; [exact Hinv|].
+  unfold xspec_pos in Hpos. rewrite (xi_begin _ _ Hinv), Hlog in Hpos. unfold l0 in *. cbn [handed_over l_tlen] in Hpos. lia. Qed.
 End Top.
 
 (* ---- the statements, for any publisher flavour that satisfies flavour_ok ---- *)
@@ -217,3 +227,42 @@ Proof. destruct HO as (Hg & Hm32 & Hn & Ho & Hal).
   apply (drained_generic tlen mtu ses n0 off0 ltac:(lia) ltac:(lia) Hal Hm32 shared pub_inv shared_flavour_ok m rv s0).
   apply init_rep_shared; assumption. Qed.
 End SharedTop.
+
+(* ---- ExclusivePublication ---- *)
+Section ExclTop.
+Variables (init tlen mtu ses str n0 off0 : Z) (m : mode) (rv : Z -> Z -> Z).
+Hypothesis HO : handover_ok init tlen mtu n0 off0.
+Variable s0 : sys exclusive.
+Hypothesis Hs0 : sys0_exclusive init tlen mtu ses str n0 off0 = Ok s0.
+
+Let gg := sgeom_of tlen mtu n0 off0.
+
+Lemma s0_rep : sys_rep tlen mtu ses n0 off0 exclusive xinv s0 spec0.
+Proof. destruct HO as (Hg & Hm32 & Hn & Ho & Hal).
+  destruct (init_rep_exclusive init tlen mtu ses str n0 off0 Hg Hn Ho) as (s & Hs & Hrep). congruence. Qed.
+
+Theorem exclusive_fidelity ops : contract exclusive m rv s0 ops = true ->
+  let sp := spec_run gg spec0 (sys_events exclusive m rv s0 ops) in
+  is_prefix (sp_del sp) (map fst (sp_acc sp)) /\
+  sp_ok sp = true /\ Forall (fun mp => snd mp mod 32 = 0) (sp_acc sp) /\ increasing (map snd (sp_acc sp)).
+Proof. destruct HO as (Hg & Hm32 & Hn & Ho & Hal).
+  apply (fidelity_generic tlen mtu ses n0 off0 ltac:(lia) ltac:(lia) Hal Hm32 exclusive xinv exclusive_flavour_ok m rv s0).
+  exact s0_rep. Qed.
+
+Theorem exclusive_drained ops limit : contract exclusive m rv s0 (ops ++ [SPoll limit]) = true -> 0 < limit ->
+  let s1 := sys_run exclusive m rv s0 ops in
+  let s2 := sys_run exclusive m rv s0 (ops ++ [SPoll limit]) in
+  im_pos (sy_img s2) = im_pos (sy_img s1) -> sy_open s1 = false ->
+  let sp := spec_run gg spec0 (sys_events exclusive m rv s0 (ops ++ [SPoll limit])) in
+  sp_del sp = map fst (sp_acc sp) /\
+  xpub_position m (sy_pub s2) = (if ps_closed (x_pub (sy_pub s2)) then Err Closed else Ok (im_pos (sy_img s2))) /\
+  im_pos (sy_img s2) = pos_after (sg_p0 gg) (sp_stream sp).
+Proof. destruct HO as (Hg & Hm32 & Hn & Ho & Hal).
+  apply (drained_generic tlen mtu ses n0 off0 ltac:(lia) ltac:(lia) Hal Hm32 exclusive xinv exclusive_flavour_ok m rv s0).
+  exact s0_rep. Qed.
+End ExclTop.
+
+Lemma exclusive_starts init tlen mtu ses str n0 off0 : handover_ok init tlen mtu n0 off0 ->
+  exists s0, sys0_exclusive init tlen mtu ses str n0 off0 = Ok s0.
+Proof. intros (Hg & Hm32 & Hn & Ho & Hal).
+  destruct (init_rep_exclusive init tlen mtu ses str n0 off0 Hg Hn Ho) as (s & Hs & _). exists s. exact Hs. Qed.
